@@ -24,7 +24,7 @@ CHECKS = {
         text="Decides on MIR: (X1) every arithmetic op of the fee predicate discharged by intervals over the full input ranges, None arms of checked "
              "ops return false, in both overflow configurations (thorough); (X2) the returned comparison's operator tree, checked ops read as exact on "
              "their Some paths, equals total >= amount + base + floor(amount*ppm/10^6); (T) field widths; (F) the failure encoder's byte layout per "
-             "variant equals 0x20,26||be32||be32||be16 and the two constant codes; (P) the policy payload is HtlcManagerParams::routing_policy; (G) gates; (P) no field of the params/policy is modified after construction; (W) option wiring; (Q) request fields verbatim; (N) every classified HTLC with a forward amount reaches the gates (C13-N1); (E) every lifecycle path answers once and removes its entry; (L) without stored state the lifecycle waits the configured timeout itself before its select, so a queued rejection is delivered whenever that timeout is non-zero (C11-T1/T4).",
+             "variant equals 0x20,26||be32||be32||be16 and the two constant codes; (P) the policy payload is HtlcManagerParams::routing_policy; (G) gates - the total compared is the onion's total_msat or else forward_msat itself, with no arithmetic or constant in between; (P) no field of the params/policy is modified after construction; (W) option wiring; (Q) request fields verbatim; (N) every classified HTLC with a forward amount reaches the gates (C13-N1); (E) every lifecycle path answers once and removes its entry; (L) without stored state the lifecycle waits the configured timeout itself before its select, so a queued rejection is delivered whenever that timeout is non-zero (C11-T1/T4).",
         note="Exactness over u64 x u64 x u32 x u32 follows from X1+X2, it is not enumerated. Only cmp(total, sum) / cmp(total-amount, sum) shapes are accepted as normal form.",
         design="5/C12"),
     "C02": dict(
@@ -39,20 +39,20 @@ CHECKS = {
         text="Decides A1 (Succeeded short-circuit with the stored preimage), A2 (from Pending, pay only via wait==Ok(None) and mark_failed==Ok), A3 (lifecycle "
              "referenced once, inside Entry::or_insert_with's closure, spawned; single pay site outside loops), A4 (pay only via add_payment_attempt==Ok), "
              "A5 (exactly one answer per lifecycle path), A6 (provider clauses the restart path relies on), A7 (the Free marker is written only "
-             "generation-guarded, so a superseded attempt cannot erase a newer in-flight marker).",
+             "generation-guarded with the generation read from / written with the Pending record - never a constant None -, so a superseded attempt cannot erase a newer in-flight marker), A9 (a stored Succeeded/Pending record reads back as that variant: fetch mapping incl. which listed entry is looked at - nth(k>0)/skip never - and the record round-trip).",
         note="Not decided: a second lifecycle overlapping the first one's post-answer bookkeeping (mechanism clauses C02-S7/C08 are decided).",
         design="5/C05"),
     "C08": dict(
         technique="dominance rules on the lifecycle + per-method write-record extraction from Datastore impls (MIR def-use)",
         text="Decides W1 (pay only through add_payment_attempt==Ok; the impl returns Ok only after its awaited Pending write, which comes first), W2 (Free only "
-             "in mark_failed, guarded, generation-conditional), W3 (Succeeded stores the settling preimage), W4 (fetch mapping), W5 (no deletion, per-hash keys), W6 (the provider clauses C15-V*/C16-D behind `nothing pending or complete`, which is what releases the Free marker), X (one lifecycle per hash; its table entry is removed only by its own final answer); W2 also requires mark_failed to be handed the lifecycle's own attempt.",
+             "in mark_failed, guarded, generation-conditional), W3 (Succeeded stores the settling preimage), W4 (fetch mapping; the entry decoded is the one the listing returns for the state key, never nth(k>0)/skip(k)), W5 (no deletion, per-hash keys), W6 (the provider clauses C15-V*/C16-D behind `nothing pending or complete`, which is what releases the Free marker), X (one lifecycle per hash; its table entry is removed only by its own final answer); W2 also requires mark_failed to be handed the lifecycle's own attempt.",
         note="Not decided: every execution prefix as a crash image at the node; overlapping lifecycles.",
         design="5/C08"),
     "C09": dict(
         technique="effect-sequence typestate: explicit fixed point over abstract stored images using write records extracted from MIR",
         text="Extracts (key kind, mode, generation guard, payload) of every datastore write per Datastore method, explores all images reachable by crashes / "
              "rejected / applied-but-failed writes, and requires every fault-free recovery write to be satisfiable on every reachable image; must-create keys "
-             "must be clock-fresh; (E) every lifecycle path, failed-write exits included, answers exactly once and thereby removes the table entry; (V) wait_payment, on which the recovery of a stored Pending state hangs, honours C15-V* (a failed part is neither an error nor `nothing pending` while another part lives); (B) nothing blocks while the table lock is held (C14-L1), so a lifecycle can always answer and remove its entry; (F) the fetch mapping reports every image an interrupted run can leave; (R) every persisted record type is read with the field encodings it is written with.",
+             "must be clock-fresh; (E) every lifecycle path, failed-write exits included, answers exactly once and thereby removes the table entry; (V) wait_payment, on which the recovery of a stored Pending state hangs, honours C15-V* (a failed part is neither an error nor `nothing pending` while another part lives); (B) nothing blocks while the table lock is held (C14-L1), so a lifecycle can always answer and remove its entry; (F) the fetch mapping reports every image an interrupted run can leave, from the entry the listing returns; (G) a Pending state read back carries the listed record's generation (not a constant None), so the recovery's must-replace write is accepted; (R) every persisted record type is read with the field encodings it is written with.",
         note="Assumes documented CLN datastore mode semantics; the lifecycle's choice of recovery call per stored state is decided by C02-S2/S4, C05-A2 (re-checked here).",
         design="5/C09"),
     "C11": dict(
@@ -96,18 +96,18 @@ CHECKS = {
     "C10": dict(
         technique="edge-guard rules + per-definition arm classification of the amount + iterator/selector shape of the route-hint gate (MIR)",
         text="Decides H (hash gate), S (signature gate; payee/bolt11/invoice provenance; record path 16->33001), A (amount arm table per reaching definition; over-long "
-             "amount field = absent), R (last hop of any hint vs local key; Trampoline only via no-hint or allowed; else Fail), C (unusable metadata => continue), L (records are looked up by type equality over the whole list, no ordering assumed), X (every TrampolineInfo the extractor returns is built there from this request), E (parts whose info - amount included - differs are rejected by a comparison that looks at every field), U (= C18-U: what a well-formed amount field is).",
+             "amount field = absent), R (last hop of any hint vs local key; Trampoline only via no-hint or allowed; else Fail), C (unusable metadata => continue), L (records are looked up by type equality over the whole list, no ordering assumed), X (every TrampolineInfo the extractor returns is built there from this request), E (parts whose info - amount included - differs are rejected by a comparison that looks at every field), U (= C18-U: what a well-formed amount field is), P (the provider hands the node exactly that bolt11 and amount: C03-R6 cited); the payee is get_payee_pub_key only (with an explicit `n` field the recovered key is not the key the signature was verified against).",
         note="Not decided: lightning-invoice's parser/signature recovery (trusted).", design="5/C10"),
     "C13": dict(
         technique="MAY-effect summaries over the call graph + await-freedom of pre-lock paths + rewrite provenance (MIR)",
         text="Decides N1 (paths that do not take the lock are Yield-free and call only synchronous effect-free functions; lock only for classified trampoline with "
              "forward_msat), N2 (forwards and unusable metadata reach only continue), R1 (single rewrite = payload clone minus record 16, guarded), R2 (order-preserving "
-             "removal), R3 (C18-T1/L1 re-evaluated), L (lookup by type equality, no ordering assumed); try_lock/semaphores count as effects, and the extractor returns only infos it built from this request; W (no permit pool / shared lock between the node's request and the handler), and C18-E (the decoders reject only truncated input).",
+             "removal), R3 (C18-T1/L1 re-evaluated), L (lookup by type equality, no ordering assumed); try_lock/semaphores count as effects, and the extractor returns only infos it built from this request; W (no permit pool / shared lock between the node's request and the handler), C18-E (the decoders reject only truncated input), and C18-P/C18-U (the decoders that run on sender-chosen bytes before classification cannot panic, so the HTLC is answered).",
         note="Not decided: byte equality by enumeration (reduced to C18's clauses).", design="5/C13"),
     "C14": dict(
         technique="lock-scope analysis (guard live regions vs. Yield/poll sites) + latch rule + ADT field table (MIR)",
         text="Decides L1 (for every payments-table guard: only add-listener/fail-requester awaited, which await only latched sends; no second lock/RPC), L2 (no shared "
-             "lock/channel/connection in Rpc/ClnDatastore/PayPaymentProvider; no Semaphore/Barrier field or acquisition anywhere in the crate; per-call connections; other guards never across await), K (per-hash keys; no globals), G (an HTLC joins the entry of its own hash: hash gate before the lookup), T (own task per entry).",
+             "lock/channel/connection in Rpc/ClnDatastore/PayPaymentProvider; no Semaphore/Barrier field or acquisition anywhere in the crate; per-call connections; other guards never across await), K (per-hash keys; no globals), G (an HTLC joins the entry of its own hash: hash gate before the lookup), T (own task per entry), S (a hash reads back the record under its own state key: C08-W4 cited), D (every hook call runs in its own spawned task that the reader never awaits: C17-R2 cited).",
         note="Not decided: fairness of tokio and of the node's RPC socket.", design="5/C14"),
     "C15": dict(
         technique="dominance/ordering of awaited RPCs + switch-table extraction of tolerated error codes + loop-shape rule (MIR)",
@@ -123,13 +123,13 @@ CHECKS = {
         technique="ADT statelessness table + consume-exactly-once rule on decoders + exactly-once send counting + cancel-safety/lock-scope rules on the driver (MIR)",
         text="Decides D1 (codecs have no state), D2 (line decoder: Ok(None) leaves the buffer, Some consumes split_to(offset+2) with a whole-buffer search for two newlines; "
              "JSON layers call the inner decoder once), R1 (per-request task replies exactly once, id = request id, one of result/error; the hand-off to the writer is an awaited send, never try_send), R2 (the raced reader future awaits "
-             "only FramedRead::next; handlers behind spawn), R3 (one FramedRead for handshake and driver loop, never taken apart), T (request ids are carried as arbitrary JSON values), R5 (an unsubscribed notification topic is not an error), R4 (the builder's rpcmethods / hooks / subscriptions maps are each moved into their dispatch table exactly once), W (all output through the single guarded FramedWrite, awaited under the guard, not raced; frame = text+2 newlines; "
+             "only FramedRead::next; handlers behind spawn), R3 (one FramedRead for handshake and driver loop, never taken apart), T (request ids are carried as arbitrary JSON values), R5 (an unsubscribed notification topic is not an error), R6 (the message decoder classifies by the presence of `id`: with an id only (Custom)Request carrying that id, without only (Custom)Notification - also when the arms are moved into helpers), R4 (the builder's rpcmethods / hooks / subscriptions maps are each moved into their dispatch table exactly once), W (all output through the single guarded FramedWrite, awaited under the guard, not raced; a frame written with feed/start_send is followed by an awaited flush; frame = text+2 newlines; "
              "no other stdout writes), P (panic discipline on codec/driver/logging).",
         note="Not decided: tokio_util Framed* internals; the node's framing.", design="5/C17"),
     "C19": dict(
         technique="def-use provenance from option constants to parameter sinks through checked conversions + registered/read set comparison + dominance of the init reply (MIR)",
         text="Decides W (each sink is cp.option(expected option) via `?`/checked TryInto to the declared width/from_secs/Not only), R (registered superset of read), O (start only when policy "
-             "delta > safety delta, after all conversions), C (retry_for saturating at u16::MAX, forwarded; cltv_delta reaches the max-delay formula), D (one policy aggregate), I (params and policy are never modified after construction), J (the framework stores integer option values as the JSON number's as_i64(), and takes an option's default only where lightningd sent no value), T (the configured MPP timeout is the value slept on).",
+             "delta > safety delta, after all conversions), C (retry_for saturating at u16::MAX, forwarded; cltv_delta reaches the max-delay formula), D (one policy aggregate), I (params and policy are never modified after construction), J (the framework stores integer option values as the JSON number's as_i64(), boolean and string values as the JSON payload itself - no negation or rewriting -, and takes an option's default only where lightningd sent no value), T (the configured MPP timeout is the value slept on).",
         note="Not decided: CLN's parsing of option strings; handle_init's as_i64().unwrap() (pre-init, outside handler scope).", design="5/C19"),
     "C20": dict(
         technique="who-writes rule through the height guard + dominating comparison + loop-exit reachability on the poll loop (MIR)",
